@@ -160,12 +160,21 @@ def enumerate_lattice(tier, seed, shard, nshards):
                 yield {"neg": neg, "d": d, "m": m, "s": s}
 
 
+def enumerate_minutes_upper(tier, seed, shard, nshards):
+    """Whole minutes (and the seconds next to them) for 360..719 deg, where a double holds fewer decimals of an HP value."""
+    for neg in (False, True):
+        for d in range(360 + shard, 720, nshards):
+            for m in range(60):
+                for s in ((0, 59) if tier == "quick" else (0, 1, 30, 59)):
+                    yield {"neg": neg, "d": d, "m": m, "s": s}
+
+
 def check_lattice_vectorised(case):
     """hp2dec_v / dec2hp_v on one whole degree of the lattice at a time."""
     a = repo.mod("geodepy.angles")
     d, neg = case["d"], case["neg"]
     sg = -1.0 if neg else 1.0
-    ts = list(range(0, 3600, case.get("step", 1)))
+    ts = sorted(set(range(0, 3600, case.get("step", 1))) | set(range(0, 3600, 60)) | set(range(59, 3600, 60)))
     hp = np.array([sg * float("%d.%02d%02d" % (d, t // 60, t % 60)) for t in ts])
     sec = np.array([sg * (d * 3600 + t) for t in ts], dtype=float)
     dec = sec / 3600.0
@@ -192,7 +201,7 @@ def check_lattice_vectorised(case):
 
 def enumerate_vectorised(tier, seed, shard, nshards):
     for neg in (False, True):
-        for d in range(shard, 360, nshards):
+        for d in range(shard, 720, nshards):
             yield {"neg": neg, "d": d, "step": 1 if tier == "thorough" else 7}
 
 
@@ -422,8 +431,10 @@ SUBCHECKS = [
              exhaustive=True,
              rule="each lattice value as source in 9 notations x every direct function / method (65 conversions): result type, "
                   "valid HP, same angle within 1e-8\""),
+    SubCheck("lattice_360_719_minutes", check_lattice, enumerate=enumerate_minutes_upper, shards_quick=8, shards_thorough=16,
+             exhaustive="both", rule="every whole minute (and neighbouring seconds) of 360..719 deg, both signs, through all 65 conversions"),
     SubCheck("lattice_vectorised", check_lattice_vectorised, enumerate=enumerate_vectorised, shards_quick=2, shards_thorough=8,
-             exhaustive=True, rule="hp2dec_v / dec2hp_v over the lattice, one degree per call"),
+             exhaustive=True, rule="hp2dec_v / dec2hp_v over 0..719 deg, both signs, one degree per call: all seconds (thorough) or every 7th second + every whole minute"),
     SubCheck("all_length3_chains", check_all_chains, enumerate=enumerate_all_chains, classes=_cls_chain, shards_quick=6, shards_thorough=16,
              rule="for a pool of boundary values (+ random ones) in each of the 9 notations: every chain of 3 conversions through the table "
                   "(about 500 per source), each step within 1e-8\" of the source"),
